@@ -219,7 +219,8 @@ PROPS = {
     },
     "C09": {
         "required_theorems": ["c09_sync_within_windows", "c09_sync_wait_input_truthful", "c09_sync_wait_output_truthful",
-                              "c09_sync_progress", "c09_sync_retires", "c09_skip", "c09_rtlsdr", "c09_fir", "c09_gated"],
+                              "c09_sync_progress", "c09_sync_retires", "c09_skip", "c09_rtlsdr", "c09_fir", "c09_gated",
+                              "c09_delay", "c09_au_encode", "c09_v2s"],
         "runs": [
             {"sub": "blocks", "quick": ["--seed", "{seed}", "--set", "modelled", "--cases", 800, "--steps", 40, "--tag-heavy", 1],
              "thorough": ["--seed", "{seed}", "--set", "modelled", "--cases", 40000, "--steps", 80, "--tag-heavy", 1]},
@@ -438,13 +439,16 @@ PROPS = {
     },
     "C14": {
         "required_theorems": ["c14_parse_serialize", "c14_reassemble", "c14_segmentation_independent", "c14_file_roundtrip",
-                              "c14_au_roundtrip", "c14_au_block_any_chunking", "c14_au_stream_roundtrip", "c14_sigmf_order", "c14_sigmf_lookup", "c14_au_encode_block_any_chunking"],
+                              "c14_au_roundtrip", "c14_au_block_any_chunking", "c14_au_stream_roundtrip", "c14_sigmf_order", "c14_sigmf_lookup", "c14_au_encode_block_any_chunking", "c14_tcp_source", "c14_tcp_step"],
         "runs": [
             {"sub": "bytes", "quick": ["--seed", "{seed}", "--cases", 20],
              "thorough": ["--seed", "{seed}", "--cases", 1500], "timeout": 40000},
             # AU byte streams (valid and mutated headers) fed to the real decoder in 1..40-byte pieces vs the Lean decoder
             {"sub": "crash", "quick": ["--seed", "{seed}", "--cases", 500, "--what", "au"],
              "thorough": ["--seed", "{seed}", "--cases", 30000, "--what", "au"], "timeout": 20000},
+            # AuEncode as a block, call by call (quantiser edge cases, NaN/inf)
+            {"sub": "blocks", "quick": ["--seed", "{seed}", "--cases", 150, "--set", "modelled", "--block", "auenc"],
+             "thorough": ["--seed", "{seed}", "--cases", 10000, "--set", "modelled", "--block", "auenc"], "timeout": 20000},
             # AuDecode as a block, call by call against the Lean block model (valid headers with any data offset and
             # annotation, one field wrong, cut short; PCM bodies of even and odd length up to three stream sizes)
             {"sub": "blocks", "quick": ["--seed", "{seed}", "--cases", 300, "--set", "modelled", "--block", "audec"],
@@ -644,7 +648,7 @@ MANIFEST_TEXT = {
     },
     "C09": {
         "text": "Lean 4 theorems about work() on an arbitrary view for the sync family (any block built with the macro), Skip, "
-                "RtlSdrDecode, ZeroCrossing/SymbolSync (c09_gated: waits name the empty input or the very output that is full, Again only with a consumed sample) and FirFilter (c09_fir: it asks for exactly ntaps+deci-1 samples, with which it will progress): consumption/commit within the windows; a wait names a stream that really lacks the amount; when no "
+                "RtlSdrDecode, Delay, AuEncode (asks for exactly the two bytes a sample needs), VecToStream (asks for exactly the packet length, with which it emits the packet), ZeroCrossing/SymbolSync (c09_gated: waits name the empty input or the very output that is full, Again only with a consumed sample) and FirFilter (c09_fir: it asks for exactly ntaps+deci-1 samples, with which it will progress): consumption/commit within the windows; a wait names a stream that really lacks the amount; when no "
                 "stream lacks anything the call progresses; Again only with progress; ended+drained inputs are reported. For every "
                 "other block the same acceptor runs on real traces with the stream-identity hook.",
         "design_ref": "DESIGN.md section 2, C09",
@@ -762,7 +766,11 @@ MANIFEST_TEXT = {
                 "sample (induction over the chunk list), hence segmentation independence and the file round trip; decoding the AU "
                 "encoder's output yields exactly the quantised samples (header fully consumed), and the AuDecode BLOCK (its "
                 "four-state machine over read windows) under EVERY segmentation fails only if the one-shot decoder rejects "
-                "the whole stream and otherwise has emitted a prefix of the one-shot result; the SigMF member lookup is "
+                "the whole stream and otherwise has emitted a prefix of the one-shot result; the AuEncode BLOCK under every "
+                "schedule (also one byte of room at a time) has written a prefix of header ++ two bytes per consumed sample; "
+                "TcpSource's carry-buffer code (tcpStep, mirrored from work()) equals the ideal reassembly step for every "
+                "buffer and every non-empty read, hence for every sequence of reads (c14_tcp_source), and is compared call by "
+                "call with the real block over a loopback socket whose peer writes one piece per call; the SigMF member lookup is "
                 "invariant under permutation of the archive members and ignores unrelated members, duplicates/absence are "
                 "errors. Tied to the code by model comparison and by real pipes, sockets, files and tar archives.",
         "design_ref": "DESIGN.md section 2, C14",
